@@ -1,9 +1,109 @@
 import CotengraVerif.Driver.Util
+import CotengraVerif.Model.Path
+import CotengraVerif.Model.Processor
+import CotengraVerif.Model.Partition
 
 namespace Cotengra.Driver.C05
-open Lean Cotengra Cotengra.Driver
+open Lean Cotengra Cotengra.Driver Cotengra.Path
 
-/-- ops of property C05 (name them "c05.<op>") -/
-def handlers : List (String × Handler) := []
+def jTree : BT → Json
+  | .leaf i => jNat i
+  | .node l r => Json.arr #[jTree l, jTree r]
+
+/-- op `c05.check_linear`: the verified checker on a (real) linear path -/
+def checkLinearOp : Handler := fun j => do
+  let n ← natOf (← field j "n")
+  let p ← natListList (← field j "path")
+  pure (jObj [("complete", jBool (checkLinear n p)), ("replays", jBool (checkLinearPartial n p))])
+
+/-- op `c05.check_ssa` -/
+def checkSSAOp : Handler := fun j => do
+  let n ← natOf (← field j "n")
+  let p ← natListList (← field j "path")
+  pure (jObj [("complete", jBool (checkSSA n p)), ("replays", jBool (checkSSAPartial n p))])
+
+def tripleOf (j : Json) : Except String (Node × Node × Node) := do
+  match ← arrOf j with
+  | [p, l, r] => pure (← natList p, ← natList l, ← natList r)
+  | _ => throw "expected [parent, left, right]"
+
+/-- op `c05.check_tree`: the verified checker on a (real) `children` dict -/
+def checkTreeOp : Handler := fun j => do
+  let n ← natOf (← field j "n")
+  let m ← (← arrOf (← field j "children")).mapM tripleOf
+  match toBT? m (n + 1) (List.range n) with
+  | some t => pure (jObj [("complete", jBool true), ("tree", jTree t)])
+  | none => pure (jObj [("complete", jBool false)])
+
+-- sub-optimizer stand-in for merges of three or more items: `Path.caterpillar`. The harness
+-- compares model and implementation only where no such merge happens.
+
+/-- op `c05.from_path`: `ContractionTree.from_path` (linear or ssa) -/
+def fromPathOp : Handler := fun j => do
+  let n ← natOf (← field j "n")
+  let p ← natListList (← field j "path")
+  let ssa ← (fieldD j "ssa" (jBool false)).getBool?
+  let ac ← (fieldD j "autocomplete" (jBool true)).getBool?
+  let r := if ssa then fromSSA caterpillar n p ac else fromLinear caterpillar n p ac
+  match r with
+  | none => pure (jObj [("result", jStr "error")])
+  | some ts => pure (jObj [("result", jStr "ok"), ("trees", jArr (ts.map jTree))])
+
+def opOf (j : Json) : Except String Processor.Op := do
+  match ← natList j with
+  | [i, k] => pure (.contract i k)
+  | [i] => pure (.single i)
+  | _ => throw "op must have one or two ids"
+
+/-- op `c05.processor`: replay a word of processor operations (the real `ssa_path` so far), then
+    optionally `optimize_remaining_by_size` with the given node sizes -/
+def processorOp : Handler := fun j => do
+  let n ← natOf (← field j "n")
+  let ops ← (← arrOf (← field j "ops")).mapM opOf
+  let sizes ← pairList (fieldD j "sizes" (jPairs []))
+  let rem ← (fieldD j "remaining" (jBool false)).getBool?
+  let sz := fun i => (sizes.lookup i).getD 1
+  match Processor.run (Processor.init n) ops with
+  | none => pure (jObj [("result", jStr "keyerror")])
+  | some s =>
+    let s' := if rem then Processor.remaining sz s else some s
+    match s' with
+    | none => pure (jObj [("result", jStr "keyerror")])
+    | some s' => pure (jObj [("result", jStr "ok"), ("nodes", jNats s'.nodes), ("ssa", jNat s'.ssa),
+                             ("path", jNatss s'.path)])
+
+/-- op `c05.separate` -/
+def separateOp : Handler := fun j => do
+  let xs ← natList (← field j "xs")
+  let bs ← natList (← field j "blocks")
+  pure (jObj [("groups", jNatss (Partition.separate xs bs))])
+
+/-- op `c05.kahypar_shortcuts` -/
+def kahyparOp : Handler := fun j => do
+  let nv ← natOf (← field j "nv")
+  let parts ← natOf (← field j "parts")
+  let onodes ← natList (fieldD j "onodes" (jNats []))
+  pure (jObj [("too_many_parts", jNats (Partition.kahyparTooManyParts nv)),
+              ("fix_outputs", jNats (Partition.kahyparFixOutputs nv onodes)),
+              ("round_robin", jNats (Partition.kahyparRoundRobin nv parts))])
+
+/-- op `c05.agglom`: the `while len(leaves) > groupsize` loop for explicit memberships per round -/
+def agglomOp : Handler := fun j => do
+  let n ← natOf (← field j "n")
+  let g ← natOf (← field j "groupsize")
+  let fuel ← natOf (fieldD j "fuel" (jNat 200))
+  let rounds ← natListList (← field j "memberships")
+  -- membership used for `k` leaves: the first recorded one of that length, else identity
+  let labels := fun k => ((rounds.find? fun m => m.length == k).getD (List.range k))
+  let fixed ← (fieldD j "fixed" (jBool false)).getBool?
+  let r := if fixed then Partition.agglomLoopFixed g labels fuel n else Partition.agglomLoop g labels fuel n
+  match r with
+  | none => pure (jObj [("result", jStr "no-termination")])
+  | some k => pure (jObj [("result", jStr "ok"), ("left", jNat k)])
+
+def handlers : List (String × Handler) :=
+  [("c05.check_linear", checkLinearOp), ("c05.check_ssa", checkSSAOp), ("c05.check_tree", checkTreeOp),
+   ("c05.from_path", fromPathOp), ("c05.processor", processorOp), ("c05.separate", separateOp),
+   ("c05.kahypar_shortcuts", kahyparOp), ("c05.agglom", agglomOp)]
 
 end Cotengra.Driver.C05
